@@ -304,13 +304,31 @@ def build_rust_harness() -> tuple[bool, str]:
             nm = ln.split("=")[0].strip()
             if nm not in ("serde", "serde_json", "thiserror", "zip", "retrobus-perfetto", "crossterm", "sha2"):
                 return False, f"sc62015-core has a dependency the offline harness cannot provide: {nm}"
-        rc, out, _ = run(["rsync", "-a", "--delete", "--exclude", "target", "--exclude", "Cargo.lock", "--exclude", "Cargo.toml", str(src) + "/", str(dst) + "/"])
+        rc, out, _ = run(["rsync", "-rlc", "--delete", "--exclude", "target", "--exclude", "Cargo.lock", "--exclude", "Cargo.toml", str(src) + "/", str(dst) + "/"])
         if rc != 0:
             return False, out
         write_if_changed(dst / "Cargo.toml", RUST_CARGO_TOML.format(zipshim=VERIF / "harness" / "rust" / "zipshim"))
         hdir = VERIF / "harness" / "rust" / "verif-harness"
+        # content stamp: cargo only looks at mtimes, which may move backwards when a mutated tree is
+        # replaced by the original; force a rebuild whenever the content differs from the last build
+        h = hashlib.sha256()
+        for f in sorted(list(dst.rglob("*.rs")) + list(dst.rglob("Cargo.toml")) + list(hdir.rglob("*.rs")) + list((VERIF / "harness" / "rust" / "zipshim").rglob("*.rs"))):
+            if "target" in f.parts:
+                continue
+            h.update(str(f).encode())
+            h.update(f.read_bytes())
+        stamp = BUILD / "rust.stamp"
+        if not (stamp.exists() and stamp.read_text() == h.hexdigest() and RUST_HARNESS.exists()):
+            if stamp.exists():
+                stamp.unlink()
+            os.utime(dst / "src" / "lib.rs", None)
+            os.utime(hdir / "src" / "main.rs", None)
+        else:
+            return True, "up to date"
         env = dict(os.environ, CARGO_NET_OFFLINE="true", CARGO_TARGET_DIR=str(BUILD / "target"))
         rc, out, dt = run(["cargo", "build", "--release", "--offline", "-j", str(NCPU)], cwd=hdir, env=env, timeout=1500)
+        if rc == 0:
+            stamp.write_text(h.hexdigest())
         return rc == 0, out
 
 
